@@ -146,6 +146,12 @@ func VerifC20Sign() {
 		verifAssert(isPSS && pss.SaltLength == rsa.PSSSaltLengthEqualsHash && pss.Hash == crypto.SHA256, "a signature is returned only for RSA-PSS / SHA-256 / salt=hash requests")
 		verifAssert(!svc.signErr, "a signature is returned only if the service call succeeded")
 		verifAssert(verifCRC(sig) == resp.GetSignatureCrc32C().GetValue(), "a signature is returned only if the response checksum (0 when absent) matches the signature")
+		if resp.SignatureCrc32C != nil && resp.SignatureCrc32C.Value == verifCRC(sig) {
+			// a site of its own: its counterexamples do not depend on a collision of the uninterpreted
+			// checksum (an absent response checksum that happens to equal the signature's) and replay natively
+			verifAssert(resp.VerifiedDigestCrc32C, "a signature is returned only if the service confirmed the digest checksum (response checksum present and matching)")
+			verifAssert(resp.VerifiedDataCrc32C, "a signature is returned only if the service confirmed the data checksum (response checksum present and matching)")
+		}
 		verifAssert(resp.VerifiedDigestCrc32C && resp.VerifiedDataCrc32C, "a signature is returned only if the service confirmed both request checksums")
 		verifAssert(verifSameSlice(got, sig), "the signature returned is the response's")
 		r := svc.signReq
